@@ -71,6 +71,7 @@ func profile(name string) Profile {
 	case "C10":
 		p.CfgMode = "async"
 		w["tick"], w["commit"], w["get"], w["exist"], w["del"], w["upd"] = 30, 6, 10, 8, 10, 16
+		w["recreate"] = 5
 		w["reopen"], w["closereopen"], w["control"] = 0, 5, 0
 		p.Sweep = 40
 	case "C17":
@@ -150,6 +151,11 @@ func genCfg(r *rand.Rand, p Profile) Cfg {
 		c.Lower = pct(r, 15)
 		if pct(r, 20) {
 			c.Ext = []string{".dat", ".obj.v1", ""}[r.Intn(3)]
+		}
+		if pct(r, 25) {
+			c.Async = true
+			c.Thr = 1 + r.Intn(5)
+			c.To = 1 + r.Intn(4)
 		}
 	}
 	for i := 0; i < NF; i++ {
@@ -718,31 +724,43 @@ func (e *Exec) GenOp(r *rand.Rand, p Profile) []string {
 	case "recreate":
 		// Create again: same schema, or a switch of cache / async settings
 		kv := fmt.Sprintf("cache=%d", r.Intn(2))
-		if p.Name == "C17" && pct(r, 60) {
+		if (p.Name == "C17" || p.Name == "C10") && pct(r, 60) {
 			if pct(r, 50) {
 				kv += fmt.Sprintf(" async=1 thr=%d to=%d", 1+r.Intn(4), 1+r.Intn(3))
 			} else {
-				kv += " async=0"
+				kv += fmt.Sprintf(" async=0 astruct=%d", r.Intn(2))
 			}
 		}
 		return sweep("create "+kv, "count", "all")
 	case "recreatebad":
 		// re-creation with another extension or other constraints must be refused
 		if pct(r, 40) {
-			return []string{"dirhash", "create ext=" + stok(".other"), "dirhash"}
+			kv := ""
+			if pct(r, 50) {
+				kv = fmt.Sprintf(" cache=%d async=0", r.Intn(2))
+			}
+			return []string{"dirhash", "create ext=" + stok(".other") + kv, "dirhash"}
 		}
+		// one constraint flag of one field toggled (index, unique, and for strings upper, lower),
+		// together with any switch of the cache / asynchronous-writes settings: the call must be
+		// refused and must not even flush pending writes
 		i := r.Intn(NF)
 		fl := []byte(e.cfg.Cons[i])
-		if fl[0] == '1' {
-			fl[0] = '0'
-		} else {
-			fl[0] = '1'
+		j := r.Intn(2)
+		if shape.Kinds[i] == 's' {
+			j = r.Intn(4)
 		}
-		if shape.Kinds[i] == 's' && pct(r, 50) {
-			fl = []byte(e.cfg.Cons[i])
-			fl[2] = '1' + '0' - fl[2]
+		fl[j] = '1' + '0' - fl[j]
+		kv := ""
+		if pct(r, 60) {
+			kv = fmt.Sprintf(" cache=%d", r.Intn(2))
+			if pct(r, 60) {
+				kv += " async=0"
+			} else {
+				kv += fmt.Sprintf(" async=1 thr=%d to=%d", 1+r.Intn(4), 1+r.Intn(3))
+			}
 		}
-		return []string{"dirhash", fmt.Sprintf("create cons=%d:%s", i, string(fl)), "dirhash"}
+		return []string{"dirhash", fmt.Sprintf("create cons=%d:%s%s", i, string(fl), kv), "dirhash"}
 	case "variant":
 		// the same directory opened through a Go struct whose shape changed: every operation
 		// must be refused and every file must stay byte-identical
